@@ -18,7 +18,7 @@ def main():
         env["PYTHONHASHSEED"] = "0"
         os.execve(sys.executable, [sys.executable, os.path.abspath(__file__)] + sys.argv[1:], env)
     sys.path.insert(0, VERIF)
-    sys.path.insert(0, "/repo/src")
+    sys.path.insert(0, os.environ.get("AIOFTP_SRC", "/repo/src"))
     if len(sys.argv) < 2:
         print(__doc__)
         return 2
